@@ -157,7 +157,7 @@ CHECKS = {
              '(C15_permissive_refuted = known finding F29, pinned by the corpus). Policy-level glue (request-environment enumeration, scopes, several '
              'conditions) and the conformance checkers are decided by the direct oracle: random schemas x typed and hazard policies x conforming data.',
         note=TB + 'Hypotheses of the strict theorem: record types of the schema have distinct keys; attribute names shorter than 10^39 bytes (model artifact); '
-             'the parents of action entities are action entities as the schema declares (see DESIGN 0.3, F43). The proof found F41, F42, F43 (fixed). '
+             'no hypothesis on the data beyond conformance as Validator.Entity / Validator.Request decide it (action entities: parents = closure of the declared groups). The proof found F41, F42, F43 (fixed). '
              'F29 is a known finding.',
         technique='Coq proof (type soundness by induction on expressions, capabilities as an invariant) + typeof correspondence + soundness oracle over generated schemas, policies and conforming data'),
     'C16': dict(
